@@ -201,10 +201,18 @@ Fixpoint has_prefix (pre x : str) : bool :=
 Definition filter_path (loc home v : str) : str :=
   join_colon (filter (fun part => negb (str_eqb part loc) && negb (has_prefix home part)) (split_colon v)).
 
+(* the body of `for name, v := range env` *)
+Definition env_entry (loc home : str) (kv : str * str) : str * str :=
+  if str_eqb (fst kv) (s "PATH") then (fst kv, filter_path loc home (snd kv)) else kv.
+
+(* the loop over the map (in the enumeration order of the list) and slices.SortFunc by name *)
+Definition env_vars (srt : sorter) (loc home : str) (e : env) : env :=
+  srt _ fst (map (env_entry loc home) e).
+
 Definition build_env (srt : sorter) (loc home : str) (have_target is_binary sandbox : bool) (e : env) : env :=
   let e1 := if sandbox then set_env (s "SANDBOX") (s "true") e else e in
   let e2 := if have_target && is_binary then set_env (s "_BINARY") (s "true") e1 else e1 in
-  srt _ fst (map (fun kv => if str_eqb (fst kv) (s "PATH") then (fst kv, filter_path loc home (snd kv)) else kv) e2).
+  env_vars srt loc home e2.
 
 (* ---- correspondence cases ---- *)
 Definition fnode_eqb (a b : fnode) := str_eqb (fname a) (fname b) && str_eqb (fdig a) (fdig b) && Bool.eqb (fexec a) (fexec b).
